@@ -23,11 +23,12 @@ def run(ctx):
     # ---- Leg D
     ctx.design("Input/ConnLife.tla", "ConnLife.cfg", workers=4, timeout=300, note="property layer: TypeOK, AtMostOnce, Contained")
     for proto in ("Http", "Scgi", "Fcgi"):
-        ctx.design("Input/ConnLifeImpl.tla", "ConnLifeImpl%s_%s.cfg" % (proto, "quick" if q else "full"), workers=16, timeout=1500, heap="12g",
+        ctx.design("Input/ConnLifeImpl.tla", "ConnLifeImpl%s_%s.cfg" % (proto, "quick" if q else "full"), workers=6, timeout=1500, heap="12g",
                    note="mechanism of the %s error paths as designed: AtMostOnce, Contained, Answered, refinement of ConnLife" % proto)
-    if not q:
+    if True:
         # self-test: the model of the code *as it was found* (F1-F3) must violate the invariants
-        for cfg, inv in (("ConnLifeImplHttp_F1.cfg", "Contained"), ("ConnLifeImplFcgi_F2.cfg", "AtMostOnce"), ("ConnLifeImplFcgi_F3.cfg", "AtMostOnce")):
+        for cfg, inv in (("ConnLifeImplHttp_F1.cfg", "Contained"), ("ConnLifeImplFcgi_F2.cfg", "AtMostOnce"),
+                         ("ConnLifeImplFcgi_F3.cfg", "AtMostOnce"), ("ConnLifeImplFcgi_F3b.cfg", "Answered")):
             ctx.design("Input/ConnLifeImpl.tla", cfg, workers=8, timeout=600, expect_violation=inv, count=False,
                        note="self-test: defect model must violate " + inv)
     # ---- Leg B
